@@ -228,6 +228,26 @@ func verifC04WriteTree(t *testing.T, root string, stage int) {
 
 // ---- analysis ----
 
+// verifC04Find reports whether data contains the marker raw, its first 12
+// bytes, or its base64 encoding at any of the three alignments.
+func verifC04Find(data []byte, marker string) bool {
+	if bytes.Contains(data, []byte(marker)) || bytes.Contains(data, []byte(marker[:12])) {
+		return true
+	}
+	for pad := 0; pad < 3; pad++ {
+		enc := base64.StdEncoding.EncodeToString(append(make([]byte, pad), marker...))
+		// drop the characters influenced by the padding bytes and by what follows the marker
+		core := enc[4 : len(enc)-4]
+		if pad == 0 {
+			core = enc[:len(enc)-4]
+		}
+		if bytes.Contains(data, []byte(core)) {
+			return true
+		}
+	}
+	return false
+}
+
 type verifC04Nonce struct {
 	Class string
 	Where string
@@ -409,10 +429,17 @@ func TestVerif_C04(t *testing.T) {
 					data, _ = json.Marshal(km)
 				}
 				for _, mk := range names {
-					full := []byte(m[mk])
-					if bytes.Contains(data, full) || bytes.Contains(data, full[:12]) {
+					if verifC04Find(data, m[mk]) {
 						r.Violationf(ck, fmt.Sprintf("C04|plaintext|%s|%s", mk, s.Type), detail(map[string]any{"file": s.Type + "/" + s.Name, "step": trace[s.Step], "marker": m[mk]}),
-							"marker for %s (%q) occurs in clear in the stored %s file %s (written by `%s`)", mk, m[mk], s.Type, s.Name, trace[s.Step])
+							"marker for %s (%q) occurs in clear (raw, 12-byte prefix or base64) in the stored %s file %s (written by `%s`)", mk, m[mk], s.Type, s.Name, trace[s.Step])
+					}
+				}
+			}
+			plainFound := map[string]bool{} // positive control, filled from decrypted bytes below
+			notePlain := func(p []byte) {
+				for _, mk := range names {
+					if !plainFound[mk] && verifC04Find(p, m[mk]) {
+						plainFound[mk] = true
 					}
 				}
 			}
@@ -476,9 +503,11 @@ func TestVerif_C04(t *testing.T) {
 						pos = e.Offset + e.Length
 						ct := s.Data[e.Offset : e.Offset+e.Length]
 						addNonce(ct[:16], "blob", fmt.Sprintf("%s#%s", where, e.ID.Str()))
-						if _, err := master.Open(nil, ct[:16], ct[16:], nil); err != nil {
+						pt, err := master.Open(nil, ct[:16], ct[16:], nil)
+						if err != nil {
 							t.Fatalf("C04: blob %v in %s does not decrypt: %v", e.ID, where, err)
 						}
+						notePlain(pt)
 					}
 					if int64(pos) != size-4-hdrLen {
 						r.Violationf(ck, "C04|pack-unaccounted-bytes", detail(map[string]any{"pack": where, "offset": pos}), "pack %s has %d bytes between the last blob and the header that belong to no blob", where, size-4-hdrLen-int64(pos))
@@ -489,10 +518,23 @@ func TestVerif_C04(t *testing.T) {
 						continue
 					}
 					addNonce(s.Data[:16], "unpacked", where)
-					if _, err := master.Open(nil, s.Data[:16], s.Data[16:], nil); err != nil {
+					pt, err := master.Open(nil, s.Data[:16], s.Data[16:], nil)
+					notePlain(pt)
+					if err != nil {
 						r.Violationf(ck, "C04|unpacked-not-encrypted|"+s.Type, detail(map[string]any{"file": where}), "%s does not decrypt with the master key (nonce||ciphertext||MAC expected): %v", where, err)
 					}
 				}
+			}
+			// positive control of the marker scan: in a version 1 repository nothing is
+			// compressed, so the decrypted objects must contain the markers the scan looks for
+			if cfg.version == "1" {
+				for _, mk := range []string{"content-compressible", "content-incompressible", "content-tiny", "filename-1", "filename-2", "dirname", "backup-path",
+					"symlink-target", "xattr-value", "snapshot-host", "tag-1"} {
+					if !plainFound[mk] {
+						t.Fatalf("C04: positive control failed: marker %s not found in the decrypted objects of %s - the marker scan would be vacuous", mk, ck)
+					}
+				}
+				r.Count("positive_control_histories", 1)
 			}
 			if count["blob"] >= 2 && count["packheader"] >= 2 && count["unpacked"] >= 2 {
 				r.Nontrivial(ck)
